@@ -40,6 +40,14 @@ EXTRA_TABLES = {"t8": {"C": 5, "N": 4, "O": 3, "F": 2, "S": 1, "N+1": 0, "Fe": 3
                 "mix-sub": {"C": 4, "O": 1, "?": 2}}
 
 
+AROM = ["c1ccccc1", "c1ccncc1", "c1cc[nH]c1", "c1ccoc1", "c1ccsc1", "c1ccc2ccccc2c1", "c1ccc2[nH]ccc2c1", "c1cnc[nH]1",
+        "c1ccn(C)c1", "O=c1cccc[nH]1", "c1cc[n+](C)cc1"]
+ARO_TABLES = {"default": "default", "octet_rule": "octet_rule",
+              "arene-tight": {"C": 3, "N": 3, "O": 2, "S": 2, "F": 1, "N+1": 4, "?": 4},
+              "N2": {"C": 4, "N": 2, "O": 2, "S": 2, "F": 1, "N+1": 3, "?": 4},
+              "C2": {"C": 2, "N": 3, "O": 1, "S": 6, "F": 1, "N+1": 4, "?": 4}}
+
+
 def multisets(max_total, max_items=99):
     out = []
     for n3 in range(0, max_total // 3 + 1):
@@ -82,6 +90,13 @@ def plan(tier, seed):
     for n in range(1, nt + 1):
         for pi, _ in enumerate(E2.parent_vectors(n)):
             tasks.append(("carbon-forms", ("forms", n, pi, rt)))
+    scopes.append({"name": "aromatic", "skeletons": AROM, "substituents": ["", "C", "F", "=O (on c only)", "O"],
+                   "tables": ARO_TABLES,
+                   "desc": "aromatic skeletons with one substituent at every ring position; expected per-atom bond-order sum after "
+                           "kekulization = sigma bonds + 1 for every atom that needs a pi bond (O3), so the verdict does not depend on "
+                           "which Kekule structure is chosen"})
+    for k in range(len(AROM)):
+        tasks.append(("aromatic", ("arom", k)))
     return {"scopes": scopes, "tasks": tasks, "bounds": {"max_total_order": 14}}
 
 
@@ -173,10 +188,101 @@ def check(smi, r):
     return loose.get("default")
 
 
+def check_aromatic(smi, r):
+    from mc.oracles import kekule
+    try:
+        atoms = smiread.read_smiles(smi)
+    except smiread.SmiError:
+        return None
+    bonds = smiread.bonds_of(atoms)
+    bsum = [0] * len(atoms)
+    for (i, j), o in bonds.items():
+        bsum[i] += 1 if o == 1.5 else o
+        bsum[j] += 1 if o == 1.5 else o
+    total = []
+    for i, a in enumerate(atoms):
+        extra = 0
+        if a.arom:
+            k = kekule.need_pi(a, bsum[i])
+            if k is None:
+                return None
+            extra = 1 if k else 0
+        total.append(bsum[i] + extra + (a.h or 0))
+    # C06 speaks about kekulizable molecules: an alternating assignment must exist (O3)
+    from mc.props import c05
+    need, aadj, standard = c05.analyse(atoms)
+    if not standard:
+        return None
+    nset = set(need)
+    if not kekule.has_perfect_matching(need, {i: [j for j in aadj[i] if j in nset] for i in need}):
+        r.cov["aromatic variant without an alternating assignment (outside C06's domain)"] += 1
+        return None
+    r.states += 1
+    ok = True
+    for tn, spec in ARO_TABLES.items():
+        _SF.set_semantic_constraints(spec if isinstance(spec, str) else dict(spec))
+        table = _SF.get_semantic_constraints()
+        over = [(i, a.text, total[i], misc.capacity(table, a.elem, a.charge)) for i, a in enumerate(atoms)
+                if total[i] > misc.capacity(table, a.elem, a.charge)]
+        r.evaluations += 2
+        r.transitions += 2
+        case = {"smiles": smi, "table_name": tn, "table": dict(table), "aromatic": True}
+        try:
+            x = _SF.encoder(smi, strict=True)
+            got = "ok"
+        except _SF.EncoderError:
+            got, x = "raised", None
+        except Exception as e:
+            got, x = "escaped:" + type(e).__name__, None
+        if over and got == "ok":
+            ok = False
+            r.violation("strict-accepts-violating-molecule:aromatic", case, "encoder(%r, strict=True) returned %r although %r "
+                                                                            "exceed capacity after kekulization" % (smi, x, over[:3]))
+        elif not over and got != "ok":
+            ok = False
+            r.violation("strict-rejects-valid-molecule:aromatic:" + got, case, "encoder(%r, strict=True) %s although no atom "
+                                                                              "exceeds its capacity under %s" % (smi, got, tn))
+        elif over:
+            r.nontrivial.add(h64((tn, smi)))
+        try:
+            xl = _SF.encoder(smi, strict=False)
+            if got == "ok" and xl != x:
+                ok = False
+                r.violation("strict-and-nonstrict-differ", case, "%r: %r vs %r" % (smi, x, xl))
+            r.nontrivial.add(h64(xl))
+        except Exception as e:
+            ok = False
+            r.violation("nonstrict-raises:" + type(e).__name__, case, "encoder(%r, strict=False)" % smi)
+    if ok:
+        r.validated += 1
+    return total
+
+
 def run(task):
     scope, arg = task
     r = Result()
     last = None
+    if arg[0] == "arom":
+        base = AROM[arg[1]]
+        atoms = smiread.read_smiles(base)
+        # one substituent after every aromatic atom (written as a branch directly after the atom's ring digits)
+        import re
+        toks = re.findall(r"\[[^\]]*\]|[a-zA-Z][a-z]?|[0-9%()=+\-#]", base)
+        variants = {base}
+        for sub in ("C", "F", "=O", "O"):
+            for pos in range(len(base) + 1):
+                cand = base[:pos] + "(" + sub + ")" + base[pos:]
+                try:
+                    a2 = smiread.read_smiles(cand)
+                except smiread.SmiError:
+                    continue
+                if len(a2) == len(atoms) + 1:
+                    variants.add(cand)
+        for smi in sorted(variants):
+            last = (smi, check_aromatic(smi, r))
+        if last:
+            r.sample({"scope": scope, "smiles": last[0], "expected_bond_order_sums": last[1]}, 1)
+        return r
     if arg[0] == "star":
         c = CENTRES[arg[1]]
         for ms in multisets(14):
@@ -208,5 +314,8 @@ def run(task):
 def replay(case):
     worker_init()
     r = Result()
+    if case.get("aromatic"):
+        check_aromatic(case["smiles"], r)
+        return [(sig, v[0]["detail"]) for sig, v in r.viol.items()]
     check(case["smiles"], r)
     return [(sig, v[0]["detail"]) for sig, v in r.viol.items()]
